@@ -98,6 +98,11 @@ def eraseActivity (s : St) (a : Option Nat) (k : Nat) : St :=
   | none => s
   | some a => s.setActor a (fun x => { x with activities := x.activities.erase k })
 
+/-- `ActorImpl::activities_` is a `std::set` ordered by the creation rank of the activities (`ActivityIdLess`, commit
+b3a6606869; activity ids of the model are creation ranks): insertion keeps the list sorted and without duplicate.
+The leftover activities of an ending actor are cancelled in that order (`cleanup_from_kernel`, commit 6040f7fd8e). -/
+def insertAct (l : List Nat) (k : Nat) : List Nat := l.filter (fun j => j < k) ++ k :: l.filter (fun j => k < j)
+
 /-- `Action::set_state(FAILED)` on a live action (`Action::cancel`, `Resource::cancel_actions`): the action joins
 the failed action set of its model, from which `handle_ended_actions` extracts it. -/
 def failAction (s : St) (k : Nat) : St :=
@@ -124,12 +129,22 @@ def unregisterAll (s : St) (a : Nat) : St :=
     acts := fun j => if j ∈ w then { s.acts j with simcalls := (s.acts j).simcalls.erase a } else s.acts j
     actors := upd s.actors a { s.actors a with waiting := (s.actors a).waiting.filter (fun j => j ∉ w), wlist := [] } }
 
+/-- `true`: `unregister_first_simcall` as it is in /repo now: an issuer whose host is off is *marked* dying
+(`issuer->set_wannadie()`) without going through `ActorImpl::exit()`; `HostImpl::turn_off` then skips it
+(`ActorImpl::kill` ignores actors that are already `wannadie()`): finding `host-off-marks-peer-dying-without-exit`.
+`false`: the code with props/C10/proposed_fix.diff (third hunk: the issuer is simply not answered; `turn_off` kills it). -/
+def unregisterMarksDying : Bool := true
+
+/-- `if (not issuer->get_host()->is_on()) issuer->set_wannadie();` -/
+def markDying (s : St) (a : Nat) : St :=
+  if unregisterMarksDying then s.setActor a (fun x => { x with wannadie := true }) else s
+
 /-- second half of `unregister_first_simcall`: is the issuer answered?
 `if (simcall->call_ == NONE) return nullptr; if (not issuer->get_host()->is_on()) issuer->set_wannadie();
  if (issuer->wannadie()) return nullptr; return issuer;` -/
 def answerTarget (s : St) (a : Nat) : St × Bool :=
   if ¬ (s.actors a).blocked then (s, false)
-  else if ¬ s.hostOn (s.actors a).host then (s.setActor a (fun x => { x with wannadie := true }), false)
+  else if ¬ s.hostOn (s.actors a).host then (markDying s a, false)
   else if (s.actors a).wannadie then (s, false)
   else (s, true)
 
@@ -346,7 +361,7 @@ def isend (s : St) (a : Nat) (m : Nat) (detached : Bool) : St × Nat :=
                 mboxq := upd s.mboxq m (s.mboxq m ++ [k]) }, k)
     | some k => ((mboxRemove s k).setAct k (fun x => { x with state := .ready }), k)
   let s := if detached then { s.setAct k (fun x => { x with detached := true }) with maestro := s.maestro ++ [k] }
-           else s.setActor a (fun x => { x with activities := x.activities ++ [k] })
+           else s.setActor a (fun x => { x with activities := insertAct x.activities k })
   let s := s.setAct k (fun x => { x with src := some a })
   (commStart s k, k)
 
@@ -358,7 +373,7 @@ def irecv (s : St) (a : Nat) (m : Nat) : St × Nat :=
       ({ s with nActs := k + 1, acts := upd s.acts k { kind := .comm, state := .waiting, mbox := some m },
                 mboxq := upd s.mboxq m (s.mboxq m ++ [k]) }, k)
     | some k => ((mboxRemove s k).setAct k (fun x => { x with state := .ready }), k)
-  let s := s.setActor a (fun x => { x with activities := x.activities ++ [k] })
+  let s := s.setActor a (fun x => { x with activities := insertAct x.activities k })
   let s := s.setAct k (fun x => { x with dst := some a })
   (commStart s k, k)
 
@@ -379,7 +394,7 @@ def execStart (s : St) (a : Nat) (h : Nat) : St × Nat :=
                     acts := upd s.acts k { kind := .exec, state := .running, hosts := [h], owner := some a,
                                            action := some (if on then .started else .failed) },
                     failedQ := if on then s.failedQ else s.failedQ ++ [k] }
-  (s.setActor a (fun x => { x with activities := x.activities ++ [k] }), k)
+  (s.setActor a (fun x => { x with activities := insertAct x.activities k }), k)
 
 /-- `ActorImpl::sleep` (the issuer's host is on, or the issuer would be dead) -/
 def sleepStart (s : St) (a : Nat) : St × Nat :=
@@ -426,19 +441,30 @@ def complete (s : St) (k : Nat) : St :=
   if (s.acts k).action = some .started then finish (s.setAct k (fun x => { x with action := some .finished })) k
   else s
 
-/-- the actor's function returned: `cleanup_from_self` (on_exit(failed = wannadie), cancel `activities_`) -/
+/-- the actor's function returned: `cleanup_from_self` (on_exit(failed = wannadie)) in the actor's context, then — since
+commit 6040f7fd8e by maestro, in `cleanup_from_kernel()`, called by `run_all_actors()` right after the actors of the
+sub-round ran and before any simcall of that sub-round is handled — the cancellation of the leftover `activities_`, in
+creation order.  Nothing that touches kernel state can happen between the two (the other actors of the sub-round only
+run user code up to their next simcall), so the two halves stay one atomic event of the model. -/
 def actorEnd (s : St) (a : Nat) : St :=
   let s := s.emit (.exit a (s.actors a).wannadie)
   let s := (s.actors a).activities.foldl cancel s
   s.setActor a (fun x => { x with ended := true, activities := [], wannadie := true })
 
-/-- `EngineImpl::handle_ended_actions`, failed actions: `while (extract_failed_action()) activity->finish()` -/
+/-- `EngineImpl::handle_ended_actions`, failed actions: `while (auto* action = model->extract_failed_action())
+activity->finish()`; `extract_failed_action` pops the front of the failed action set before `finish` runs (which then
+destroys the action: `clean_action`). -/
 def handleEnded : Nat → St → St
   | 0, s => s
   | n + 1, s =>
     match s.failedQ with
     | [] => s
-    | k :: _ => handleEnded n (finish s k)
+    | k :: rest => handleEnded n (finish { s with failedQ := rest } k)
+
+/-- `handle_ended_actions` run until the failed action set is empty: every `finish` takes its activity out of the set
+(`clean_action`), so `failedQ.length` iterations are enough; `nActs + 1` is kept as a lower bound (the bound used
+before; the two agree on every state met so far: the set has no duplicate and only holds existing activities). -/
+def handleEndedAll (s : St) : St := handleEnded (max (s.nActs + 1) s.failedQ.length) s
 
 /-- the events of the transition system -/
 inductive Ev where
@@ -477,7 +503,7 @@ def step (s : St) (e : Ev) : St :=
   | .linkOn l => linkOnEv s l
   | .complete k => complete s k
   | .actorEnd a => actorEnd s a
-  | .handleEnded => handleEnded (s.nActs + 1) s
+  | .handleEnded => handleEndedAll s
 
 def run (s : St) (es : List Ev) : St := es.foldl step s
 
